@@ -283,6 +283,60 @@ func runC10Interop(sc *IopScript) *sim.Outcome {
 			} else {
 				return o.Fail("C10/interop-smp-ask", "otr3 did not ask for the secret after the reference's SMP1")
 			}
+		case "endr":
+			// the reference ends the session with an unpadded disconnect TLV; otr3 must notice
+			if !m.R.Encrypted || !m.A.C.IsEncrypted() {
+				continue
+			}
+			m.Settle(onA, onR)
+			m.fromR(m.R.End())
+			m.Settle(onA, onR)
+			if m.A.C.IsEncrypted() {
+				return o.Fail("C10/interop-disconnect", "otr3 stayed encrypted after the reference's disconnect message (TLV 1, no padding)")
+			}
+			out, _ := m.A.C.End()
+			_ = out
+			o.Class("ref-disconnect")
+			m.QtoA, m.QtoR = nil, nil
+			sim.Age(m.A.C, 3*60e9)
+			if !m.Establish(op.X & 1) {
+				return o.Fail("C10/interop-ake", "no new session after a disconnect")
+			}
+		case "endo":
+			if !m.R.Encrypted || !m.A.C.IsEncrypted() {
+				continue
+			}
+			m.Settle(onA, onR)
+			out, err := m.A.C.End()
+			m.fromA("End", nil, nil, out, err, m.A.Snap(), true)
+			m.Settle(onA, onR)
+			if m.R.Encrypted || !m.R.Finished {
+				return o.Fail("C10/interop-disconnect", "the reference did not see a disconnect TLV in otr3's End() message")
+			}
+			o.Class("otr3-disconnect")
+			m.R.Finished = false
+			sim.Age(m.A.C, 3*60e9)
+			if !m.Establish(op.X & 1) {
+				return o.Fail("C10/interop-ake", "no new session after End()")
+			}
+		case "abortr":
+			// unpadded SMP abort from the reference while otr3 waits for an answer
+			if !m.A.C.IsEncrypted() || !m.R.Encrypted {
+				continue
+			}
+			m.Settle(onA, onR)
+			m.R.SMPPassive = true
+			out, err := m.A.C.StartAuthenticate("", []byte("x"))
+			m.fromA("StartAuthenticate", nil, nil, out, err, m.A.Snap(), true)
+			m.Settle(onA, onR)
+			before := len(m.A.SMP)
+			m.fromR(m.R.SendOpts(nil, ref.DataOpts{Flags: 1, TLVs: []ref.TLV{ref.SMPTLV(ref.TLVSMPAbort, nil)}}))
+			m.Settle(onA, onR)
+			m.R.SMPPassive = false
+			if _, _, ab, _, _ := smpFlags(m.A.SMP[before:]); !ab {
+				return o.Fail("C10/interop-smp-abort", "otr3 did not report the reference's (unpadded) SMP abort; events %v", m.A.SMP[before:])
+			}
+			o.Class("ref-smp-abort")
 		case "xko":
 			if !m.A.C.IsEncrypted() {
 				continue
@@ -379,7 +433,7 @@ func init() { reg("C10interop", runC10Interop) }
 
 func TestProp_C10_Interop(t *testing.T) {
 	defer sim.MarkCompleted("C10interop", false)
-	kinds := []string{"os", "os", "os", "rs", "rs", "rs", "do", "do", "dr", "dr", "settle", "settle", "smpo", "smpr", "xko", "xkr"}
+	kinds := []string{"os", "os", "os", "rs", "rs", "rs", "do", "do", "dr", "dr", "settle", "settle", "smpo", "smpr", "xko", "xkr", "endr", "endo", "abortr"}
 	rapid.Check(t, func(rt *rapid.T) {
 		sc := &IopScript{Cfg: genSessCfg(rt)}
 		if sc.Cfg.FragB > 0 && sc.Cfg.FragB < 8 {
@@ -396,6 +450,8 @@ func TestProp_C10_Interop(t *testing.T) {
 			case "smpo", "smpr":
 				op.X = rapid.IntRange(0, 15).Draw(rt, "x")
 				op.S = rapid.SampledFrom([]string{"", "", "who?", "ünï"}).Draw(rt, "q")
+			case "endr", "endo":
+				op.X = rapid.IntRange(0, 1).Draw(rt, "starter")
 			case "xko", "xkr":
 				op.X = rapid.IntRange(0, 1<<20).Draw(rt, "x")
 				op.S = rapid.SampledFrom([]string{"", "data", "\x01\x02"}).Draw(rt, "s")
